@@ -127,7 +127,7 @@ impl<B: StarkField> ConstraintDivisor<B> {
         // compute the numerator value
         let mut numerator = E::ONE;
         for (degree, constant) in self.numerator.iter() {
-            let v = x.exp((*degree as u32).into());
+            let v = x.exp((*degree as u64).into());
             let v = v - E::from(*constant);
             numerator *= v;
         }
